@@ -896,7 +896,9 @@ where
                             Err(e) => {
                                 // After a deserialization error, skip remaining events in the
                                 // current document and try to recover at the next document boundary.
-                                if !self.src.skip_to_next_document() {
+                                // A syntax error ends the iteration wherever the parser met it (it
+                                // does not repeat every such error on the next pull).
+                                if e.is_syntax_error() || !self.src.skip_to_next_document() {
                                     self.finished = true;
                                 }
                                 return Some(Err(e));
@@ -1300,7 +1302,9 @@ where
                             Err(e) => {
                                 // After a deserialization error, skip remaining events in the
                                 // current document and try to recover at the next document boundary.
-                                if !self.src.skip_to_next_document() {
+                                // A syntax error ends the iteration wherever the parser met it (it
+                                // does not repeat every such error on the next pull).
+                                if e.is_syntax_error() || !self.src.skip_to_next_document() {
                                     self.finished = true;
                                 }
                                 return Some(Err(e));
@@ -2075,11 +2079,13 @@ where
                         let res = res.and_then(|v| {
                             self.src.complete_document(delivered_before).map(|()| v)
                         });
-                        if res.is_err() {
+                        if let Err(e) = &res {
                             // After a deserialization error, skip remaining events in the
                             // current document and try to recover at the next document boundary.
-                            // If no next document is found, mark as finished.
-                            if !self.src.skip_to_next_document() {
+                            // If no next document is found, mark as finished. A syntax error ends
+                            // the iteration wherever the parser met it (it does not repeat every
+                            // such error on the next pull).
+                            if e.is_syntax_error() || !self.src.skip_to_next_document() {
                                 self.finished = true;
                             }
                         }
